@@ -18,8 +18,11 @@ pub mod se;
 pub mod encs;
 pub mod refs;
 pub mod gen_tables;
+pub mod refdec;
+pub mod drv;
 
 #[cfg(verif_selftest)] pub mod selftest;
 
+#[cfg(verif_c01)] pub mod c01;
 #[cfg(verif_c14)] pub mod c14;
 
